@@ -23,7 +23,7 @@ def gen_env(table, powers=(1, 1, 1, 1), prefixes=False):
     return {"MCgen.tla": "---- MODULE MCgen ----\nEXTENDS MC_NodeEnv\nP == INSTANCE NodePrefixes\nPowerV == %s\nPropV == %s\nPrefixV == %s\n====\n" %
             (tla_seq(list(powers)), tla_seq(table), "P!All" if prefixes else "<< <<>> >>")}
 
-def cfg_env(me, depth, usedie, maxround=3, maxheight=2, bids='{"A", "X"}', invariants=("C03", "TypeOK"), extra=""):
+def cfg_env(me, depth, usedie, maxround=3, maxheight=2, bids='{"A", "X"}', invariants=("C03", "TypeOK", "EvidenceOnlyForEquivocators"), extra=""):
     s = ("SPECIFICATION Spec\nCONSTANTS\n  N = 4\n  Power <- PowerV\n  ProposerOf <- PropV\n  InvalidBids = {\"X\"}\n"
          "  SkipTimeoutCommit = FALSE\n  Me = %d\n  Bids = %s\n  MyBid = \"M\"\n  MaxRound = %d\n  MaxHeight = %d\n"
          "  Depth = %d\n  UseDie = %s\n  Prefixes <- PrefixV\nVIEW View\n") % (me, bids, maxround, maxheight, depth, "TRUE" if usedie else "FALSE")
